@@ -130,4 +130,51 @@ pub fn same_within(a: &Out, b: &Out, tol: f64, scale: f64) -> Option<String> {
     None
 }
 
+/// Tolerance for one probability of an infoset of the *returned average strategy* when two runs
+/// that should agree "within rounding" are compared. Both runs are logged, so the amplification
+/// of rounding noise is measured, not guessed:
+///  * regret matching divides by the sum of positive regrets: a relative regret noise of
+///    1e-14 x `payoff_cond` (payoff magnitude over the magnitude of payoff differences; 1 if the
+///    payoffs are unchanged) becomes a strategy perturbation of that noise / `margin`, where
+///    `margin` is the smallest relative distance of any regret-matching step of either trace from
+///    its discontinuity (below 1e-9 the comparison is inconclusive altogether);
+///  * the returned average strategy is cumulative strategy / its mass: for an infoset its owner
+///    (almost) never reaches, a reach of 1e-13 that is exactly 0 in the other run is amplified by
+///    `cond` = total weight / accumulated mass (`Stats::avg_cond`).
+/// The floor is 1e-9 as everywhere else.
+pub fn avg_tol(cond: f64, payoff_cond: f64, margin: f64) -> f64 {
+    let t = 1e-9 + 1e-14 * payoff_cond.max(1.0) * cond.max(1.0) / margin.min(1.0).max(1e-300);
+    if t.is_nan() {
+        f64::INFINITY
+    } else {
+        t
+    }
+}
+
+/// like `same_within` with the conditioning-aware tolerance for strategies; returns the
+/// description of the first difference and the number of infosets whose tolerance exceeded 1e-3
+/// (effectively not compared)
+pub fn same_within_cond(a: &Out, b: &Out, sa: &spec::Stats, sb: &spec::Stats, scale: f64, payoff_cond: f64) -> (Option<String>, u64) {
+    let mut skipped = 0;
+    for p in 0..2 {
+        for (di, (x, y)) in a.dense[p].iter().zip(b.dense[p].iter()).enumerate() {
+            let cond = sa.avg_cond[p].get(di).copied().unwrap_or(1.0).max(sb.avg_cond[p].get(di).copied().unwrap_or(1.0));
+            let tol = avg_tol(cond, payoff_cond, sa.min_margin.min(sb.min_margin));
+            if tol > 1e-3 {
+                skipped += 1;
+            }
+            for (u, v) in x.iter().zip(y.iter()) {
+                if !((u - v).abs() <= tol) {
+                    return (Some(format!("player {} infoset {}: {:?} vs {:?} (conditioning {:e}, tolerance {:e})", p + 1, di, x, y, cond, tol)), skipped);
+                }
+            }
+        }
+        let (u, v) = (a.bounds[p], b.bounds[p]);
+        if !(u == v || (u - v).abs() <= 1e-9 * scale.max(u.abs())) {
+            return (Some(format!("bound of player {}: {} vs {}", p + 1, u, v)), skipped);
+        }
+    }
+    (None, skipped)
+}
+
 pub const ALL_LOGS: u32 = verif::LOG_DRAW | verif::LOG_VISIT | verif::LOG_STATE | verif::LOG_PASS;
